@@ -79,12 +79,13 @@ class Inject:
             if hit and me.phase == "before":
                 me.fired = True
                 raise me.exc()
-            if hit and me.phase == "mid":
+            if hit and me.phase.startswith("mid"):
                 calls = dict(n=0)
+                at = int(me.phase[3:] or 3)  # "mid<j>": raise inside the j-th array write of this frame
 
                 def get(item):
                     calls["n"] += 1
-                    if calls["n"] == 3 and not me.fired:
+                    if calls["n"] == at and not me.fired:
                         me.fired = True
                         raise me.exc()
                     return me.o_get(item)
@@ -223,7 +224,7 @@ def one(ctx, dev, kw, k, N, thermal, out_mode, inj: dict, dt=1e-2, with_model=Tr
             if want and new != [want]:
                 fail("fresh-name", f"expected the fresh name {want}, got {new}")
     # ---------------- correspondence with the Lean handler model ----------------
-    if with_model and out_mode != "none" and inj.get("phase") != "after" and not fails:
+    if with_model and out_mode != "none" and inj.get("phase") != "after" and not fails and (fired or inj.get("fcall") is None):
         n_therm = 3 if thermal else 0
         uf = sf = ""
         if inj.get("ucall") is not None:
@@ -266,7 +267,10 @@ def injections(N, k, thermal):
         for c in range(n_u + 1):
             yield dict(ucall=c, kind=kind)
         for f in range(nframes):
-            for phase in ("before", "mid", "after"):
+            # every array write of the frame: 5 field datasets, then the per-step columns (dt, mu, theta) of the
+            # running-state group for frames after the first; an index past the last write never fires
+            nwrites = 5 if f == 0 else 8
+            for phase in ["before"] + [f"mid{j}" for j in range(1, nwrites + 1)] + ["after"]:
                 yield dict(fcall=f, phase=phase, kind=kind)
 
 
